@@ -361,6 +361,15 @@ theorem C09_roots_exact (l : List Bytes) : (∀ x, x ∈ poolOrder l ↔ x ∈ l
 theorem C09_roots_bad_bundle (s : State) : Submit.setRoots s none = (s, false) ∧ Submit.setRoots s (some []) = (s, false) :=
   ⟨rfl, rfl⟩
 
+/-- a reload whose bundle the storage refuses to persist fails and changes nothing: validation and get-roots keep
+    using the old pool, whatever the new bundle was (the persisted `_roots.pem`, from which a restart reloads, is the
+    old one too) -/
+theorem C09_roots_persist_failure (s : State) (pem : Option (List Bytes)) :
+    Submit.setRootsStored s pem false = (s, false) ∧
+    getRoots (Submit.setRootsStored s pem false).1 = getRoots s ∧
+    Submit.setRootsStored s pem true = Submit.setRoots s pem :=
+  ⟨rfl, rfl, rfl⟩
+
 example : getRoots (run cfg {} [.setRoots (some [[1], [2], [1]]), .submit (reqCert 1500) .sequenced, .setRoots none,
     .setRoots (some []), .restart]) = [[1], [2]] := by decide
 -- a reload that drops the root turns the same submission from accepted into rejected
